@@ -182,3 +182,76 @@ Definition trim_both (p : Z -> bool) (s : str) : str := drop_while p (trim_right
 Definition inside_selection (ex : fexpr) (start : nat) (fields : list str) (s e : nat) : bool :=
   Nat.leb (select_start ex start fields) s && Nat.leb s e &&
   Nat.leb e (select_start ex start fields + length (select_text ex fields)).
+
+(* ---------- "the last delimiter is stripped from the output" ---------- *)
+(* man page: --accept-nth "The last delimiter is stripped from the output"; templates of --with-nth /
+   --accept-nth: "the trailing delimiter is stripped from each expression"; the same holds for {N} in
+   commands.  ONE delimiter occurrence at the very end of the text goes away, nothing else of the text. *)
+
+(* Some p iff s = p ++ sep *)
+Fixpoint without_suffix (sep s : str) {struct s} : option str :=
+  if str_eqb s sep then Some []
+  else match s with
+       | [] => None
+       | c :: t => match without_suffix sep t with Some p => Some (c :: p) | None => None end
+       end.
+
+(* literal delimiter: s without ONE trailing sep, s itself when it does not end with sep *)
+Definition strip_literal (sep s : str) : str :=
+  match without_suffix sep s with Some p => p | None => s end.
+
+(* regexp delimiter, occurrences in s given (ordered): the last occurrence goes when it ends the text *)
+Definition strip_occurrence (locs : list (nat * nat)) (s : str) : str :=
+  match locs with
+  | [] => s
+  | _ => let (b, e) := last locs (0, 0)%nat in if Nat.eqb e (length s) then firstn b s else s
+  end.
+
+(* the delimiter as far as stripping is concerned *)
+Inductive dspec :=
+| DSAwk                                         (* white space: removed by trimming, see output_text *)
+| DSLiteral (sep : str)
+| DSRegexp (occ : str -> list (nat * nat)).     (* occurrences of the regexp in a text *)
+
+Definition strip_delim (d : dspec) (s : str) : str :=
+  match d with
+  | DSAwk => s
+  | DSLiteral sep => strip_literal sep s
+  | DSRegexp occ => strip_occurrence (occ s) s
+  end.
+
+(* what is printed / searched / substituted for a selected text: last delimiter, then trailing white space *)
+Definition output_text (d : dspec) (s : str) : str := trim_right is_space (strip_delim d s).
+
+(* the text an expression list denotes (--with-nth 1,3 / --accept-nth 2.. / {1,3}) *)
+Definition fields_text (es : list fexpr) (fields : list str) : str :=
+  concat (map (fun e => select_text e fields) es).
+
+(* --nth: one searched text per expression; with a --delimiter the LAST one is searched without its
+   trailing delimiter (so that a suffix term can match the last selected field) *)
+Fixpoint map_last_pure {A} (f : A -> A) (l : list A) : list A :=
+  match l with
+  | [] => []
+  | [x] => [f x]
+  | x :: r => x :: map_last_pure f r
+  end.
+Definition search_texts (d : dspec) (es : list fexpr) (fields : list str) : list str :=
+  let sels := map (fun e => select_text e fields) es in
+  match d with DSAwk => sels | _ => map_last_pure (output_text d) sels end.
+
+(* templates of --with-nth / --accept-nth: literal text, {n} = ordinal of the line, {EXPR,...} *)
+Inductive tpart := TLit (s : str) | TIndex | TFields (es : list fexpr).
+Definition render_part (d : dspec) (fields : list str) (index : Z) (p : tpart) : str :=
+  match p with
+  | TLit s => s
+  | TIndex => if index <? 0 then [] else itoa index
+  | TFields es => output_text d (fields_text es fields)
+  end.
+Definition render_template (d : dspec) (fields : list str) (index : Z) (parts : list tpart) : str :=
+  concat (map (render_part d fields index) parts).
+
+(* {EXPR,...} in a command (before quoting): the selected text without its last delimiter, white space
+   trimmed on both sides unless the s flag asks to preserve it *)
+Definition placeholder_text (d : dspec) (preserve : bool) (es : list fexpr) (fields : list str) : str :=
+  let s := strip_delim d (fields_text es fields) in
+  if preserve then s else trim_both is_space s.
